@@ -81,6 +81,12 @@ int fegetround(void);
  */
 #define DEFAULT_MAX_LEAD_ZEROES 5
 
+/*
+ * The magnitude beyond which the exponent of a parsed number is no longer accumulated digit by digit; much larger than
+ * any exponent that matters for a double, and small enough that ten times it plus a digit and a digit count fit an int
+ */
+#define MAX_PARSED_EXPONENT 10000000
+
 /**
  * @brief Determines the index of the most significant decimal digit of the argument.
  *
@@ -2048,7 +2054,10 @@ int cif_value_parse_numb(cif_value_tp *n, UChar *text) {
 
         exp_start = pos;
         while ((text[pos] >= UCHAR_0) && (text[pos] <= UCHAR_9)) {
-            exponent = (int) ((exponent * 10) + (text[pos] - UCHAR_0));
+            /* saturate rather than overflow: any exponent this large already yields zero or infinity */
+            if (exponent <= MAX_PARSED_EXPONENT) {
+                exponent = (int) ((exponent * 10) + (text[pos] - UCHAR_0));
+            }
             pos += 1;
         }
         if (pos <= exp_start) {
